@@ -11,6 +11,8 @@
    realises Path objects against fixed base directories).  Python TypeError / ValueError -> [Err].
    [fixed] selects the table after the repair of DESIGN section 7.2 (optimize size: -Os); [fixed = false]
    is the table as originally written (-Osize).
+   [dfix] selects a translation of define(NAME, empty string) that keeps the empty value (-DNAME=);
+   [dfix = false] is the code as written (the value is tested for truth, so -DNAME is produced).
    Not modelled: MSVC tables, darwin/windows branches (pthread on darwin, gui on windows, frameworks,
    module_def, whole archives), java (--main=), rpath_dir/rpath_link_dir/install_name_change, libraries
    created by the build itself (relative rpath through patchelf.local_rpath - property C14), newlines in
@@ -77,6 +79,7 @@ Definition mem_str (s : str) (l : list str) : bool := existsb (str_eqb s) l.
 
 Section Tables.
 Variable fixed : bool.
+Variable dfix : bool.               (* define with an explicitly empty value keeps it: -DNAME= *)
 Variable pkgconf : bool.             (* mode == 'pkg-config' *)
 Variable defaults : list str.        (* the compiler's default include directories (_search_dirs) *)
 
@@ -91,7 +94,8 @@ Definition cc_flag1 (o : opt) : res (list flag) :=
   match o with
   | OInclude d sys => Ok (include_dir_flags d sys)
   | ODefine n (Some (c :: v)) => Ok [STR "-D" ++ n ++ STR "=" ++ c :: v]     (* if i.value: *)
-  | ODefine n _ => Ok [STR "-D" ++ n]
+  | ODefine n (Some []) => if dfix then Ok [STR "-D" ++ n ++ STR "="] else Ok [STR "-D" ++ n]
+  | ODefine n None => Ok [STR "-D" ++ n]
   | OStd s => Ok [STR "-std=" ++ s]
   | OWarning l => Ok (map warn_flag l)
   | ODebug => Ok [STR "-g"]
@@ -298,6 +302,7 @@ Definition ol_add (a b : list opt) : list opt := ol_extend (ol_make a) b.
 
 Section Merge.
 Variable fixed : bool.
+Variable dfix : bool.
 Variable defaults : list str.
 
 (* builtins/compile.py _get_flags + BaseCompile.flags + CcBaseCompiler._call, with the Make/Ninja
@@ -306,10 +311,10 @@ Variable defaults : list str.
                         command       = cmd always_flags CFLAGS -c input [-MMD -MF deps] -o output *)
 Definition cc_final (cmd always envf : list flag) (gopts internal user : list opt)
            (input output : str) (deps : option str) : res (list flag) :=
-  match cc_flags fixed false defaults gopts with
+  match cc_flags fixed dfix false defaults gopts with
   | Err e => Err e
   | Ok gf =>
-      match cc_flags fixed false defaults (ol_add (ol_make internal) user) with
+      match cc_flags fixed dfix false defaults (ol_add (ol_make internal) user) with
       | Err e => Err e
       | Ok tf =>
           Ok (cmd ++ always ++ (envf ++ gf) ++ tf ++ [STR "-c"; input]
@@ -465,7 +470,7 @@ Definition res_accepted (lg : lang) (r : res (list flag)) : bool :=
   end.
 
 (* everything the three tables produce for one option is inside the grammar *)
-Definition check_opt (fixed pkgconf : bool) (defaults : list str) (lg : lang) (o : opt) : bool :=
-  res_accepted lg (cc_flags fixed pkgconf defaults [o])
+Definition check_opt (fixed dfix pkgconf : bool) (defaults : list str) (lg : lang) (o : opt) : bool :=
+  res_accepted lg (cc_flags fixed dfix pkgconf defaults [o])
   && res_accepted lg (ld_flags fixed pkgconf [o])
   && res_accepted lg (ld_lib_flags pkgconf [o]).
